@@ -26,6 +26,7 @@ def showRes : Res → String
   | .bytes n => "b" ++ toString n
   | .sockClosed => "C"
   | .timeout => "T"
+  | .sshError => "S"
   | .doneAll h _ => "D" ++ toString h
 
 def b01 (b : Bool) : String := if b then "1" else "0"
@@ -47,6 +48,7 @@ def showSt (s : St) : String :=
   " f=" ++ b01 s.active ++ b01 s.closed ++ b01 s.eofSent ++ b01 s.eofRecv ++ b01 s.linked ++ b01 s.pipesClosed ++
   " b=" ++ toString s.inBuf ++ "," ++ toString s.errBuf ++
   " w=" ++ toString s.wire.length ++ ":" ++ (match s.wire.getLast? with | some m => showMsg m | none => "-") ++
+  " p=" ++ toString s.maxPkt ++
   " T=" ++ "|".intercalate (s.thr.map showThr)
 
 def parseBool (t : String) : Option Bool :=
@@ -65,6 +67,7 @@ def parseAct (ws : List String) : Option Act :=
   | ["iter", t] => do pure (.iter (← t.toNat?))
   | ["wake", t, dt] => do pure (.wake (← t.toNat?) (← dt.toNat?))
   | ["emit", t] => do pure (.emit (← t.toNat?))
+  | ["efail", t] => do pure (.emitFail (← t.toNat?))
   | ["recv", t, k, e] => do pure (.recv (← t.toNat?) (← k.toNat?) (← parseBool e))
   | ["check", t] => do pure (.check (← t.toNat?))
   | ["close", t] => do pure (.close (← t.toNat?))
@@ -115,7 +118,7 @@ def driverStep (cfg : Cfg) (z : DSt) (line : String) : DSt × String :=
   | ["wire"] => (z, if s.wire.isEmpty then "-" else ",".intercalate (s.wire.map showMsg))
   | ["ghost"] =>
     (z, "granted=" ++ toString s.granted ++ " recvd=" ++ toString s.recvd ++ " consumed=" ++ toString s.consumed ++
-        " discarded=" ++ toString s.discarded ++ " raced=" ++ b01 s.raced)
+        " discarded=" ++ toString s.discarded ++ " leaked=" ++ toString s.leaked ++ " raced=" ++ b01 s.raced)
   | ws =>
     match parseAct ws with
     | some a => let z' : DSt := ⟨step cfg s a, sigAfter z a⟩; (z', showD z')
